@@ -13,14 +13,14 @@ def models(tier):
     ms = []
     ms.append(dict(tag="list", consts=dict(MaxLen=ml, Vals={1, 2, 3}, Maxes={0, 1, 3}, Kind="list"),
                    invariants=["TypeOK"], properties=["LimitRespected", "RefusalsHarmless"],
-                   replays=_replays("list", [0, 1, 2, 3, 4] if tier == "thorough" else [0, 4])))
+                   replays=_replays("list", [0, 1, 2, 3, 4, 5] if tier == "thorough" else [0, 4])))
     for kind in ("queue", "stack"):
         ms.append(dict(tag=kind, consts=dict(MaxLen=ml, Vals={1, 2, 3, 4}, Maxes={0, 2}, Kind=kind),
                        invariants=["TypeOK"], properties=["LimitRespected", "RefusalsHarmless"],
                        replays=_replays(kind, [0, 2, 4] if tier == "thorough" else [0, 4] if kind == "queue" else [0])))
     ms.append(dict(tag="grow", consts=dict(MaxLen=ml, Vals={1, 2, 3}, Maxes={0}, Kind="grow"),
                    invariants=["TypeOK"], properties=["RefusalsHarmless"],
-                   replays=_replays("grow", [0, 1, 3] if tier == "thorough" else [0, 1])))
+                   replays=_replays("grow", [0, 1, 3, 5] if tier == "thorough" else [0, 5])))
     return ms
 
 
